@@ -212,6 +212,15 @@ class Interp:
             return False
         if isinstance(s, ast.Assign):
             v = self.expr(s.value)
+            if len(s.targets) == 1 and isinstance(s.targets[0], ast.Name) and s.targets[0].id in self.env and v[0] == "bin":
+                # x = x op y (or y op x for a commutative op) is the augmented assignment x op= y
+                nm = s.targets[0].id
+                old = self.env[nm]
+                other = v[3] if v[2] == old else (v[2] if (v[3] == old and v[1] in ("+", "*", "&", "|", "^") and self._commutes(v[1], v[2], v[3])) else None)
+                if other is not None and old[0] not in ("const",) and not any(x == old for x in walk(other)):
+                    self.emit("aug", s, name=nm, op=v[1], old=old, value=other, new=v, rebind=True)      # out of place: the name is rebound
+                    self.env[nm] = v
+                    return False
             for tgt in s.targets:
                 self.assign(tgt, v, s)
             return False
